@@ -3,6 +3,9 @@ import json, os
 VERIF = os.path.dirname(os.path.dirname(os.path.abspath(__file__)))
 STD_NOTE = "Trusted: Lean 4.33 kernel; axioms propext/Classical.choice/Quot.sound at most (audited by #print axioms on every run; no sorry/native_decide); "
 CHECKS = {
+ "C12": ("proof", "Lean 4: the five centring matrices are translated from the AST of _get_primitive_system and proved (decide +kernel over all 230 groups) to be bases of Z^3 + the group's centring translations with determinant 1/m (primitivity, volume ratio for every cell by volume_ratio); np.unique first-index selection modelled and the (letter, element) count ratio proved for all lists by induction. Correspondence drives _get_primitive_system with synthetic systems; end-to-end crystals of every centring type with an independent spglib run on the primitive system.",
+         STD_NOTE + "tools/gen_centring.py, tools/gen_tables.py; hypotheses S2/S3 about spglib's mappings (each primitive label exactly m times, equal label => equal class) are monitored end to end, not proved.",
+         "Lean 4 proof (kernel-checked centring lattices + list induction) + correspondence", "DESIGN.md §6 C12"),
  "C14": ("proof", "All three tables are machine-translated into Lean on every run together with spglib's Hall database; each of the 1 731 Wyckoff positions and 879 normalizers is one kernel-evaluated theorem (decide +kernel) and soundness lemmas lift the Boolean checks to statements over all parameter values in Q^3 and all metric tensors of the lattice system. Monitors: labels of one crystal per group and spglib's letters for table-built probe crystals on the real code.",
          STD_NOTE + "tools/gen_tables.py as a copier (round-trip checked by DumpTables.lean), its certificates are untrusted; spglib's Hall database is the reference the property names; spec definitions in MatidModel/Table.lean.",
          "Lean 4 proof over translated tables (decide +kernel + soundness lemmas)", "DESIGN.md §6 C14"),
